@@ -1451,13 +1451,15 @@ int hwloc_bitmap_last_unset(const struct hwloc_bitmap_s * set)
 
 int hwloc_bitmap_next(const struct hwloc_bitmap_s * set, int prev_cpu)
 {
-	unsigned i = HWLOC_SUBBITMAP_INDEX(prev_cpu + 1);
+	/* unsigned so that prev_cpu == INT_MAX (the last index a foreach loop can return) does not overflow */
+	unsigned next_cpu = (unsigned) prev_cpu + 1;
+	unsigned i = HWLOC_SUBBITMAP_INDEX(next_cpu);
 
 	HWLOC__BITMAP_CHECK(set);
 
 	if (i >= set->ulongs_count) {
 		if (set->infinite)
-			return prev_cpu + 1;
+			return next_cpu;
 		else
 			return -1;
 	}
@@ -1483,13 +1485,15 @@ int hwloc_bitmap_next(const struct hwloc_bitmap_s * set, int prev_cpu)
 
 int hwloc_bitmap_next_unset(const struct hwloc_bitmap_s * set, int prev_cpu)
 {
-	unsigned i = HWLOC_SUBBITMAP_INDEX(prev_cpu + 1);
+	/* unsigned so that prev_cpu == INT_MAX (the last index a foreach loop can return) does not overflow */
+	unsigned next_cpu = (unsigned) prev_cpu + 1;
+	unsigned i = HWLOC_SUBBITMAP_INDEX(next_cpu);
 
 	HWLOC__BITMAP_CHECK(set);
 
 	if (i >= set->ulongs_count) {
 		if (!set->infinite)
-			return prev_cpu + 1;
+			return next_cpu;
 		else
 			return -1;
 	}
